@@ -1,0 +1,55 @@
+//go:build verif
+
+package client
+
+import "sync"
+
+// VerifLockEvent, when set, is called for every operation on the locks of the client's shared structures:
+// with op "Lock" or "RLock" just before the lock is acquired, with "Unlock" or "RUnlock" just after it was
+// released. class names the structure the lock guards ("sessions", "session", "cache", "settings") and lock
+// identifies the instance. A lock-order checker in the verification harness uses it. It is nil unless a
+// harness installs it.
+var VerifLockEvent func(class string, lock interface{}, op string)
+
+type verifMutex struct {
+	mu sync.RWMutex
+}
+
+func (m *verifMutex) event(class, op string) {
+	if f := VerifLockEvent; f != nil {
+		f(class, m, op)
+	}
+}
+
+func (m *verifMutex) lock(class string)    { m.event(class, "Lock"); m.mu.Lock() }
+func (m *verifMutex) unlock(class string)  { m.mu.Unlock(); m.event(class, "Unlock") }
+func (m *verifMutex) rlock(class string)   { m.event(class, "RLock"); m.mu.RLock() }
+func (m *verifMutex) runlock(class string) { m.mu.RUnlock(); m.event(class, "RUnlock") }
+
+type sessionsMutex struct{ m verifMutex }
+
+func (x *sessionsMutex) Lock()    { x.m.lock("sessions") }
+func (x *sessionsMutex) Unlock()  { x.m.unlock("sessions") }
+func (x *sessionsMutex) RLock()   { x.m.rlock("sessions") }
+func (x *sessionsMutex) RUnlock() { x.m.runlock("sessions") }
+
+type sessionMutex struct{ m verifMutex }
+
+func (x *sessionMutex) Lock()    { x.m.lock("session") }
+func (x *sessionMutex) Unlock()  { x.m.unlock("session") }
+func (x *sessionMutex) RLock()   { x.m.rlock("session") }
+func (x *sessionMutex) RUnlock() { x.m.runlock("session") }
+
+type cacheMutex struct{ m verifMutex }
+
+func (x *cacheMutex) Lock()    { x.m.lock("cache") }
+func (x *cacheMutex) Unlock()  { x.m.unlock("cache") }
+func (x *cacheMutex) RLock()   { x.m.rlock("cache") }
+func (x *cacheMutex) RUnlock() { x.m.runlock("cache") }
+
+type settingsMutex struct{ m verifMutex }
+
+func (x *settingsMutex) Lock()    { x.m.lock("settings") }
+func (x *settingsMutex) Unlock()  { x.m.unlock("settings") }
+func (x *settingsMutex) RLock()   { x.m.rlock("settings") }
+func (x *settingsMutex) RUnlock() { x.m.runlock("settings") }
